@@ -37,12 +37,14 @@ pub fn make_module() -> KMap {
 
         match map_instance_and_args(ctx, expected_error)? {
             (KValue::Map(m), [KValue::Map(other)]) => {
-                m.data_mut().extend(
-                    other
-                        .data()
-                        .iter()
-                        .map(|(key, value)| (key.clone(), value.clone())),
-                );
+                // The other map might be the map that's being extended,
+                // so its entries are copied before the map is borrowed mutably.
+                let entries: Vec<_> = other
+                    .data()
+                    .iter()
+                    .map(|(key, value)| (key.clone(), value.clone()))
+                    .collect();
+                m.data_mut().extend(entries);
                 Ok(KValue::Map(m.clone()))
             }
             (KValue::Map(m), [iterable]) if iterable.is_iterable() => {
